@@ -5,8 +5,8 @@
    is the arithmetic mean `amid` of CTMCGrid (C13_amid_ok); CTMCGridProbabilityStep.middle does NOT satisfy these hypotheses
    (middle(-0.001, 0) = -h/2; it reads grid.h).  For such a middle only C13_refine_nests_axis / C13_refine_admissible_axis apply
    (hypotheses about the gaps of the axis being refined only), one level at a time; their premises are oracle-checked. *)
-From Coq Require Import ZArith QArith List.
-From RV Require Import Base.QB Model.Grid Proofs.C13_Grid.
+From Coq Require Import ZArith QArith Qabs Qround Qreals List Reals.
+From RV Require Import Base.QB Model.Grid Model.GridGeom Proofs.C13_Grid Proofs.C13_GridGeom Proofs.C13_GridGeomR Proofs.C13_ProbStep.
 Import ListNotations.
 Open Scope Q_scope.
 
@@ -131,6 +131,145 @@ Example C13_nonvacuous :
   /\ (exists xs, credit_axis (-4) (-3) (1#4) 2 false = Some (xs, 4%nat)).
 Proof. vm_compute. repeat split. eexists; reflexivity. Qed.
 
+(* ================================================================================================ wave 5
+   np.linspace / np.geomspace axes (Model/GridGeom.v).  Q theorems plug into the grid record and refine^n of Model/Grid.v;
+   R theorems cover EVERY real truncation bound (np.geomspace is start*(stop/start)^(i/(num-1)), irrational in general). *)
+
+(* CTMCUniformGrid.__init__ as a grid object (same axis for every dimension of the model): well formed, origin index
+   int(|l|/h), reported truncations are (l, r) *)
+Theorem C13_uniform_grid_wf : forall l h r dim g, 0 < h -> l < 0 -> 0 < r -> uniform_grid l h r dim = Some g ->
+  grid_wf g /\ g_h g = h /\ length (g_axes g) = dim /\ g_o g = Z.to_nat (Qfloor (Qabs l / h))
+  /\ Forall (fun t => fst t == l /\ snd t == r) (g_trunc g).
+Proof. exact uniform_grid_wf. Qed.
+
+(* ... and any number n of CTMCGrid.refine() of it: admissible with origin 2^n*o and h/2^n, old state i at 2^n*i,
+   2^n*(len-1)+1 states, end points still the truncation bounds *)
+Theorem C13_uniform_refine_n : forall n l h r xs o, 0 < h -> l < 0 -> 0 < r -> uniform_axis l h r = Some (xs, o) ->
+  admissible (refine_axis_n amid n xs) (2 ^ n * o) (h / inject_Z (2 ^ Z.of_nat n))
+  /\ (forall i, (i < length xs)%nat -> nthq (refine_axis_n amid n xs) (2 ^ n * i) = nthq xs i)
+  /\ length (refine_axis_n amid n xs) = (2 ^ n * (length xs - 1) + 1)%nat
+  /\ headq (refine_axis_n amid n xs) == l /\ lastq (refine_axis_n amid n xs) == r.
+Proof. exact uniform_refine_n. Qed.
+
+(* CTMCGridGeometric (both constructors), bounds with rational common ratios l = -(h*ql^(nb-1)), r = h*qr^(nb-1):
+   whenever the code's guards (nb >= 2, l < -h, h < r) let it return, the axis is admissible, origin index nb, 2nb+1 states,
+   end points (l, r); the guards hold exactly when both ratios exceed 1 *)
+Theorem C13_geometric_admissible : forall h ql qr nb xs o,
+  0 < h -> 0 < ql -> 0 < qr -> geometric_axis h ql qr nb = Some (xs, o) ->
+  admissible xs o h /\ headq xs == geom_l h ql nb /\ lastq xs == geom_r h qr nb
+  /\ o = nb /\ length xs = (2 * nb + 1)%nat /\ 1 < ql /\ 1 < qr.
+Proof. exact geometric_admissible. Qed.
+Theorem C13_geometric_guards_suffice : forall h ql qr nb,
+  0 < h -> 1 < ql -> 1 < qr -> (2 <= nb)%nat -> exists xs, geometric_axis h ql qr nb = Some (xs, nb).
+Proof. exact geometric_guards_suffice. Qed.
+Theorem C13_geometric_grid_wf : forall h ql qr nb dim g,
+  0 < h -> 0 < ql -> 0 < qr -> geometric_grid h ql qr nb dim = Some g ->
+  grid_wf g /\ g_o g = nb /\ g_h g = h /\ length (g_axes g) = dim
+  /\ Forall (fun t => fst t == geom_l h ql nb /\ snd t == geom_r h qr nb) (g_trunc g).
+Proof. exact geometric_grid_wf. Qed.
+Theorem C13_geometric_refine_n : forall n h ql qr nb xs o,
+  0 < h -> 0 < ql -> 0 < qr -> geometric_axis h ql qr nb = Some (xs, o) ->
+  admissible (refine_axis_n amid n xs) (2 ^ n * nb) (h / inject_Z (2 ^ Z.of_nat n))
+  /\ (forall i, (i < 2 * nb + 1)%nat -> nthq (refine_axis_n amid n xs) (2 ^ n * i) = nthq xs i)
+  /\ length (refine_axis_n amid n xs) = (2 ^ n * (2 * nb) + 1)%nat
+  /\ headq (refine_axis_n amid n xs) == geom_l h ql nb /\ lastq (refine_axis_n amid n xs) == geom_r h qr nb.
+Proof. exact geometric_refine_n. Qed.
+
+Open Scope R_scope.
+(* one side np.geomspace(a, b, n) over R, a < b of the same sign: strictly increasing, n states, first a, last b, all in [a,b] *)
+Theorem C13_geomspace_R_axis : forall a b n, (2 <= n)%nat -> same_sign_lt a b ->
+  incrR (geomspace_R a b n) /\ length (geomspace_R a b n) = n
+  /\ headr (geomspace_R a b n) = a /\ lastr (geomspace_R a b n) = b
+  /\ (forall i, (i < n)%nat -> a <= nthr (geomspace_R a b n) i <= b).
+Proof. exact geomspace_R_axis. Qed.
+(* assembly over R *)
+Theorem C13_assembly_admissible_R : forall left right h,
+  incrR left -> incrR right -> left <> [] -> right <> [] -> 0 < h ->
+  lastr left = - h -> headr right = h ->
+  let '(xs, o) := assembleR left right in
+  admissibleR xs o h /\ headr xs = headr left /\ lastr xs = lastr right /\ o = length left.
+Proof. exact assembly_admissible_R. Qed.
+(* CTMCGridGeometric for EVERY real l, h, r and every nb *)
+Theorem C13_geometric_admissible_R : forall l h r nb xs o,
+  0 < h -> geometric_axis_R l h r nb = Some (xs, o) ->
+  admissibleR xs o h /\ headr xs = l /\ lastr xs = r /\ o = nb /\ length xs = (2 * nb + 1)%nat.
+Proof. exact geometric_admissible_R. Qed.
+Theorem C13_geometric_guards_suffice_R : forall l h r nb,
+  (2 <= nb)%nat -> l < - h -> h < r -> exists xs, geometric_axis_R l h r nb = Some (xs, nb).
+Proof. exact geometric_guards_suffice_R. Qed.
+(* the rational-ratio Q model is the R model, state by state *)
+Theorem C13_geometric_axis_Q2R : forall h ql qr nb xs o, (0 < h)%Q -> (0 < ql)%Q -> (0 < qr)%Q ->
+  geometric_axis h ql qr nb = Some (xs, o) ->
+  exists ys, geometric_axis_R (Q2R (geom_l h ql nb)) (Q2R h) (Q2R (geom_r h qr nb)) nb = Some (ys, o)
+             /\ length ys = length xs /\ forall i, (i < length xs)%nat -> Q2R (nthq xs i) = nthr ys i.
+Proof. exact geometric_axis_Q2R. Qed.
+(* CTMCGrid.refine (arithmetic-mean middle) on real axes: one step inserts the mean strictly inside each gap; n steps *)
+Theorem C13_refine_step_R : forall xs, incrR xs -> forall i, (i + 1 < length xs)%nat ->
+  nthr (refineR xs) (2 * i + 1) = (nthr xs i + nthr xs (i + 1)) / 2
+  /\ nthr xs i < nthr (refineR xs) (2 * i + 1) < nthr xs (i + 1).
+Proof. exact refineR_step. Qed.
+Theorem C13_refine_n_R : forall n xs o h, admissibleR xs o h ->
+  admissibleR (refineR_n n xs) (2 ^ n * o) (h / 2 ^ n)
+  /\ (forall i, (i < length xs)%nat -> nthr (refineR_n n xs) (2 ^ n * i) = nthr xs i)
+  /\ length (refineR_n n xs) = (2 ^ n * (length xs - 1) + 1)%nat
+  /\ headr (refineR_n n xs) = headr xs /\ lastr (refineR_n n xs) = lastr xs.
+Proof. exact refineR_n_nests. Qed.
+Theorem C13_geometric_refine_n_R : forall n l h r nb xs o,
+  0 < h -> geometric_axis_R l h r nb = Some (xs, o) ->
+  admissibleR (refineR_n n xs) (2 ^ n * nb) (h / 2 ^ n)
+  /\ (forall i, (i < 2 * nb + 1)%nat -> nthr (refineR_n n xs) (2 ^ n * i) = nthr xs i)
+  /\ length (refineR_n n xs) = (2 ^ n * (2 * nb) + 1)%nat
+  /\ headr (refineR_n n xs) = l /\ lastr (refineR_n n xs) = r.
+Proof. exact geometric_refine_n_R. Qed.
+Open Scope Q_scope.
+
+(* non-vacuity of the wave-5 theorems: a geometric axis with ratios 2 and 3/2 (h = 1/4, nb = 3), its grid in dimension 2,
+   two refinements; a uniform axis with l = -1, h = 1/4, r = 5/4 (int(|l|/h) = 4, int(r/h) = 5) and its grid; rejected
+   arguments (nb = 1; ratio 1); over R: l = -2, h = 1/4, r = 3, nb = 4 *)
+Example C13_geom_nonvacuous :
+  geometric_axis (1#4) 2 (3#2) 3 = Some ([-((1#4)*(2*(2*1))); -((1#4)*(2*1)); -((1#4)*1); 0; (1#4)*1; (1#4)*((3#2)*1); (1#4)*((3#2)*((3#2)*1))], 3%nat)
+  /\ admissibleb (fst (assemble (geom_left (1#4) 2 3) (geomq (1#4) (3#2) 3))) 3 (1#4) = true
+  /\ admissibleb (refine_axis_n amid 2 (fst (assemble (geom_left (1#4) 2 3) (geomq (1#4) (3#2) 3)))) 12 (1#16) = true
+  /\ (exists g, geometric_grid (1#4) 2 (3#2) 3 2 = Some g /\ length (g_axes g) = 2%nat)
+  /\ geometric_axis (1#4) 2 (3#2) 1 = None /\ geometric_axis (1#4) 1 (3#2) 3 = None
+  /\ (exists xs, uniform_axis (-1) (1#4) (5#4) = Some (xs, 4%nat) /\ admissibleb xs 4 (1#4) = true /\ length xs = 10%nat)
+  /\ (exists g, uniform_grid (-1) (1#4) (5#4) 3 = Some g /\ length (g_axes g) = 3%nat).
+Proof. vm_compute. repeat split; eexists; repeat split; reflexivity. Qed.
+Example C13_geom_R_nonvacuous : exists xs, geometric_axis_R (-2) (1 / 4) 3 4 = Some (xs, 4%nat)
+  /\ admissibleR xs 4 (1 / 4) /\ length xs = 9%nat /\ headr xs = (-2)%R /\ lastr xs = 3%R
+  /\ admissibleR (refineR_n 3 xs) 32 (1 / 4 / 2 ^ 3) /\ same_sign_lt (-2) (- (1 / 4)) /\ same_sign_lt (1 / 4) 3.
+Proof. exact geometric_R_example. Qed.
+
+(* CTMCGridProbabilityStep, right half axis while the tail is not exhausted, under the SPECIFICATION of the root finder
+   (F = cumulative jump probability, strictly increasing; M = the probability available on this side; root x p = the point with
+   F(root x p) - F x = p, REQUIRED ONLY WHILE F x + p <= M -- a real jump law is bounded; neither brentq nor the quadrature is
+   modelled): the axis x, x1, x2, ... built by `middle_point = root(start, p/2); start' = root(middle_point, p/2)`, n steps with
+   F x + n*p <= M, is strictly increasing and EVERY gap carries exactly the requested probability p; refining it with the grid's
+   own middle (the equal-probability point) yields the probability-step axis of step p/2: each refined gap carries p/2 *)
+Open Scope R_scope.
+Theorem C13_probstep_gaps : forall (F : R -> R) (root : R -> R -> R) (M : R),
+  (forall x y, x < y -> F x < F y) -> (forall x p, 0 < p -> F x + p <= M -> F (root x p) - F x = p) ->
+  forall x p n, 0 < p -> F x + INR n * p <= M ->
+  incrR (ps_axis root x p n) /\ length (ps_axis root x p n) = S n /\ nthr (ps_axis root x p n) 0 = x
+  /\ forall i, (i < n)%nat -> F (nthr (ps_axis root x p n) (i + 1)) - F (nthr (ps_axis root x p n) i) = p.
+Proof. exact probstep_gaps. Qed.
+Theorem C13_probstep_refine : forall (F : R -> R) (root : R -> R -> R) (M : R),
+  (forall x y, x < y -> F x < F y) -> (forall x p, 0 < p -> F x + p <= M -> F (root x p) - F x = p) ->
+  forall x p n, 0 < p -> F x + INR n * p <= M ->
+  refineG (ps_middle F root) (ps_axis root x p n) = ps_axis root x (p / 2) (2 * n)
+  /\ forall i, (i < 2 * n)%nat ->
+       F (nthr (refineG (ps_middle F root) (ps_axis root x p n)) (i + 1))
+       - F (nthr (refineG (ps_middle F root) (ps_axis root x p n)) i) = p / 2.
+Proof. exact probstep_refine. Qed.
+(* the hypotheses are satisfiable with a bounded mass: F x = x, M = 1, root x p = x + p, x = 1/8, p = 1/4, n = 3 *)
+Example C13_probstep_nonvacuous :
+  (forall x y, x < y -> (fun t => t) x < (fun t => t) y)
+  /\ (forall x p, 0 < p -> (fun t => t) x + p <= 1 -> (fun t => t) ((fun a b => a + b) x p) - (fun t => t) x = p)
+  /\ (fun t => t) (1 / 8) + INR 3 * (1 / 4) <= 1
+  /\ nthr (ps_axis (fun a b => a + b) (1 / 8) (1 / 4) 3) 2 = 5 / 8.
+Proof. exact ps_example. Qed.
+Open Scope Q_scope.
+
 Print Assumptions C13_assembly_admissible.
 Print Assumptions C13_fixed_admissible.
 Print Assumptions C13_fixed_axis.
@@ -147,3 +286,22 @@ Print Assumptions C13_refine_nests_axis.
 Print Assumptions C13_refine_admissible_axis.
 Print Assumptions C13_amid_ok.
 Print Assumptions C13_nonvacuous.
+Print Assumptions C13_uniform_grid_wf.
+Print Assumptions C13_uniform_refine_n.
+Print Assumptions C13_geometric_admissible.
+Print Assumptions C13_geometric_guards_suffice.
+Print Assumptions C13_geometric_grid_wf.
+Print Assumptions C13_geometric_refine_n.
+Print Assumptions C13_geomspace_R_axis.
+Print Assumptions C13_assembly_admissible_R.
+Print Assumptions C13_geometric_admissible_R.
+Print Assumptions C13_geometric_guards_suffice_R.
+Print Assumptions C13_geometric_axis_Q2R.
+Print Assumptions C13_refine_step_R.
+Print Assumptions C13_refine_n_R.
+Print Assumptions C13_geometric_refine_n_R.
+Print Assumptions C13_geom_nonvacuous.
+Print Assumptions C13_geom_R_nonvacuous.
+Print Assumptions C13_probstep_gaps.
+Print Assumptions C13_probstep_refine.
+Print Assumptions C13_probstep_nonvacuous.
